@@ -39,6 +39,28 @@ func reasonOf(a Atom, be *BigEval) (kind, text string) {
 
 func reasonOfRaw(a Atom, be *BigEval) (kind, text string) {
 	a = normAtom(a)
+	// `slices.Contains(X, nil)`: some element of X is missing
+	if c, _ := callAndResult(a.V); c != nil && a.Want == True && calleeName(c) == "slices.Contains" && len(c.Call.Args) == 2 && isNilConst(c.Call.Args[1]) {
+		return "nil", desc(c.Call.Args[0]) + "[#i]"
+	}
+	// a search over a collection that found nothing is the exhausted loop, whichever way the search is written
+	if c, _ := callAndResult(a.V); c != nil && a.Want == False {
+		switch calleeName(c) {
+		case "slices.ContainsFunc", "slices.Contains":
+			return "guard", "#i|int|>="
+		}
+	}
+	if g, ok := parseGuard(a, nil); ok && g.Kind == "int" && g.BoundA.isConst() {
+		if c, isCall := stripConv(g.SubjV).(*ssa.Call); isCall {
+			switch calleeName(c) {
+			case "slices.IndexFunc", "slices.Index":
+				k := g.BoundA.C
+				if (g.Rel == "<" && k <= 0) || (g.Rel == "==" && k == -1) || (g.Rel == "<=" && k < 0) {
+					return "guard", "#i|int|>="
+				}
+			}
+		}
+	}
 	if bo, ok := a.V.(*ssa.BinOp); ok && (isNilConst(bo.Y) || isNilConst(bo.X)) {
 		x := bo.X
 		if isNilConst(x) {
